@@ -118,7 +118,7 @@ def read_raw(text):
     return net
 
 
-def write_raw(net, cw=1, cz=1, windv2=1.0, ixfr=True):
+def write_raw(net, cw=1, cz=1, windv2=1.0, ixfr=True, nomv=None):
     """Write a RAW v33 text of a net (system-base p.u. for series data). Transformers = branches with tap != 1 or phi != 0."""
     mva = net['mva']
     kv = {b['idx']: b['Vn'] for b in net['buses']}
@@ -157,7 +157,11 @@ def write_raw(net, cw=1, cz=1, windv2=1.0, ixfr=True):
         if cw == 1:
             w1, w2, n1, n2 = t1, t2, 0.0, 0.0
         elif cw == 2:
+            # winding voltages in kV: the ratio is WINDV / bus base kV whatever the name-plate voltages NOMV1/NOMV2 say
+            # (nomv = (f1, f2): name-plate voltages as multiples of the bus base kV; they only set the impedance base)
             w1, w2, n1, n2 = t1 * kv[i], t2 * kv[j], 0.0, 0.0
+            if nomv:
+                n1, n2 = kv[i] * nomv[0], kv[j] * nomv[1]
         else:
             # winding-2 nominal voltage equals the bus base kV (ratio exactly nominal); winding 1 has its own nominal kV
             n1, n2 = kv[i] * 1.05, kv[j]
